@@ -409,7 +409,7 @@ SPLIT_PROFILE = dict(w_split=1.0, w_mem=2.5, w_sto=1.5, maxlen=40, terminal=0.5)
 
 
 def gen_block(rnd, kind=None):
-    kind = kind or rnd.choices(["rule", "grammar", "mem", "split", "deep"], [4, 3, 3, 1.5, 0.7])[0]
+    kind = kind or rnd.choices(["rule", "grammar", "mem", "split", "deep", "dupterms"], [4, 3, 3, 1.5, 0.7, 1.0])[0]
     if kind == "rule":
         return gen_rule_block(rnd), kind
     if kind == "grammar":
@@ -447,6 +447,40 @@ def gen_block(rnd, kind=None):
                     out.append((rnd.choice(["MSTORE", "SSTORE"]), None))
                     extra -= 1
         return out or [("PUSH", "0")], kind
+    if kind == "dupterms":
+        # the same term computed twice (operands in the other order for commutative operations, repeated loads /
+        # hashes / environment reads), then combined or stored: exercises the unification of duplicated instructions
+        nin = rnd.choice([2, 2, 3])
+        a, b = ("in", 0), ("in", rnd.randrange(1, nin))
+        op = rnd.choice(["ADD", "MUL", "AND", "OR", "XOR", "EQ", "SUB", "LT"])
+        t1 = ("op", op, [a, b])
+        t2 = ("op", op, [b, a]) if rnd.random() < 0.7 else ("op", op, [a, b])
+        r = rnd.random()
+        if r < 0.25:
+            t1 = ("op", rnd.choice(["CALLDATALOAD", "BALANCE"]), [a])
+            t2 = t1
+        elif r < 0.4:
+            t1 = ("env", rnd.choice(ENV0))
+            t2 = t1
+        out = []
+        compile_tree(t1, 0, out, nin)
+        compile_tree(t2, 1, out, nin)
+        extra = 2
+        for _ in range(rnd.randrange(1, 3)):
+            k = rnd.random()
+            if k < 0.4 and extra >= 2:
+                out.append((rnd.choice(["ADD", "MUL", "XOR", "SUB"]), None))
+                extra -= 1
+            elif k < 0.8 and extra >= 1:
+                if rnd.random() < 0.5:
+                    out += [("DUP%d" % (extra + 1 + rnd.randrange(nin)), None)]
+                else:
+                    out += [("PUSH", hexv(rnd.choice(SMALL_ADDRS)))]
+                out.append((rnd.choice(["MSTORE", "SSTORE"]), None))
+                extra -= 1
+            else:
+                out.append(("SWAP%d" % rnd.randrange(1, extra + nin), None))
+        return out, kind
     if kind == "hostile":
         return gen_hostile_block(rnd), kind
     if kind == "long":
